@@ -378,6 +378,34 @@ func c12Spaces(c *fw.Ctx) {
 				}
 			}
 		})
+	c.Space("stream/short-buffer", "Conn.Read into a caller's buffer shorter than the frame: two frames (first of 12, 80 or 300 octets, second of 12 or 300), the first read with a buffer of every length 0..size−1, the stream whole or cut inside the first frame: the short read reports an error and delivers nothing, and the NEXT Conn.Read (with room) returns the second message intact — the refused message went with its frame; non-trivial: all", true,
+		func(emit func(func(*fw.R))) {
+			for _, s1 := range []int{12, 80, 300} {
+				for _, s2 := range []int{12, 300} {
+					s1, s2 := s1, s2
+					emit(func(r *fw.R) {
+						r.Nontrivial()
+						a, b := c12Body(s1, 10), c12Body(s2, 11)
+						stream := append(c12Frame(a), c12Frame(b)...)
+						for bl := 0; bl < s1; bl++ {
+							for _, cuts := range [][]int{nil, {1}, {2}, {2 + s1/2}, {2 + s1}} {
+								co := &dns.Conn{Conn: &segConn{data: stream, cuts: cuts}}
+								n, err := co.Read(make([]byte, bl))
+								if err == nil {
+									r.Fail("stream-short-buffer/accepted", "Conn.Read of a %d-octet message into %d octets: n=%d, no error", s1, bl, n)
+								}
+								buf := make([]byte, 65535)
+								n, err = co.Read(buf)
+								if err != nil || !bytes.Equal(buf[:n], b) {
+									r.Fail("stream-short-buffer/next-message", "after a Conn.Read of a %d-octet message into a %d-octet buffer (stream cut at %v) the next Read returned %d octets, err %v (first octets %x); want the second message of %d octets intact", s1, bl, cuts, n, err, buf[:min(n, 8)], s2)
+								}
+							}
+						}
+						r.Count("reads", int64(5*s1))
+					})
+				}
+			}
+		})
 	c.Space("write/limits", "Conn.Write / Conn.WriteMsg over stream and datagram with payloads of 0, 12, 65534, 65535, 65536, 65537, 70000 octets: ≤ 65535 is written as one frame with the right length prefix, larger is refused with nothing written; non-trivial: all", true,
 		func(emit func(func(*fw.R))) {
 			for _, n := range []int{0, 12, 65534, 65535, 65536, 65537, 70000} {
